@@ -813,7 +813,7 @@ func runCase(c Case) *h.Outcome {
 	return o
 }
 
-const rule = "programs of 1-20 update proposals on 1-3 ledger channels between two honest clients (real client.Client over the scripted FIFO bus, optional serializer): proposer, channel, amount and direction, final flag, responder decision (accept/reject) and handler delay 0-20 ms; steps are sequential or run concurrently in groups of 2-3 (same or different channel, same or opposite party). Observation: return value of every Channel.Update, the merged, globally ordered log of both recording persisters (Staged/SigAdded/Enabled with transaction clones), State()/Phase() at quiescence. Oracle: (a) Update==nil => proposer and, at quiescence, the peer enabled exactly the proposed state; (b) rejection => neither side enabled the proposed state; (c) every enabled transaction carries a valid signature of every participant; (d) if no request timed out: at every point of the merged log the parties' versions differ by <= 1, no version has two different fully signed states anywhere in the log, and at quiescence both sides hold the same state in phase Acting/Final. non-trivial = a rejection, an overlapping group, or >= 2 channels in use"
+const rule = "programs of 1-20 update proposals on 1-3 ledger channels between two honest clients (real client.Client over the scripted FIFO bus, optional serializer): proposer, channel, amount and direction, final flag, responder decision (accept/reject) and handler delay 0-20 ms; steps are sequential or run concurrently in groups of 2-3 (same or different channel, same or opposite party). Observation: return value of every Channel.Update, the merged, globally ordered log of both recording persisters (Staged/SigAdded/Enabled with transaction clones), State()/Phase() at quiescence. Oracle: (a) Update==nil => proposer and, at quiescence, the peer enabled exactly the proposed state; (b) rejection => neither side enabled the proposed state; (c) every enabled transaction carries a valid signature of every participant; (d) if no request timed out: at every point of the merged log the parties' versions differ by <= 1, no version has two different fully signed states anywhere in the log, and at quiescence both sides hold the same state in phase Acting/Final. A fourteenth of the steps proposes a state that mints a unit (refused by the proposer's own machine, nothing sent); in two fifths of the steps the handler answers twice (Reject-Accept, Reject-Reject, Accept-Accept, Accept with a Reject from a watchdog 50-550 us later, Accept with a Reject at the moment the acceptance is on the wire while the accepting call is held in Publish for 3 ms). non-trivial = a rejection, an overlapping group, or >= 2 channels in use"
 
 func TestUpdateAgreement(t *testing.T) {
 	rec := h.Begin("C06", "")
